@@ -9,6 +9,7 @@ import QrlewModel.Model.Injection
 import QrlewModel.Model.Filter
 import QrlewModel.Model.Clip
 import QrlewModel.Model.Tau
+import QrlewModel.Model.Rel
 /-!
 JSON-lines driver over the executable model.  One input line = one harness line
 (`{"stream":..,"case":..,..}`); one output line = `{"model": <canonical output>}`.
@@ -319,6 +320,28 @@ def runLimit (c : Json) : Option Json := do
     (Tau.kept k.toNat (List.replicate n 0)).length
   pure (Json.mkObj [("const_counts", Json.arr (counts.map fun n => Json.num (JsonNumber.fromNat n)).toArray)])
 
+def optNat? (j : Json) (k : String) : Option Nat :=
+  match (j.getObjVal? k).toOption with
+  | some (Json.num n) => some n.toFloat.toUInt64.toNat
+  | _ => none
+
+/-- declared sizes `[0, max]` per node kind, as the code computes them (the outer-join bound is the code's, a known finding) -/
+def runSizes (c : Json) : Option Json := do
+  let kind ← (c.getObjVal? "kind").toOption >>= fun s => s.getStr?.toOption
+  let l ← (c.getObjVal? "l").toOption >>= jInt?
+  let r ← (c.getObjVal? "r").toOption >>= jInt?
+  let mx : Nat ← match kind with
+    | "map" => pure (Rel.mapSizeMax l.toNat (optNat? c "offset") (optNat? c "limit"))
+    | "join" => do
+      let lu ← (c.getObjVal? "left_unique").toOption >>= fun b => b.getBool?.toOption
+      let ru ← (c.getObjVal? "right_unique").toOption >>= fun b => b.getBool?.toOption
+      pure (if lu || ru then Rel.joinSizeUnique l.toNat r.toNat else l.toNat * r.toNat)
+    | "set" => do
+      let op ← (c.getObjVal? "set").toOption >>= fun s => s.getStr?.toOption
+      pure (match op with | "union" => Rel.unionMax l.toNat r.toNat | "intersect" => Rel.intersectMax l.toNat r.toNat | _ => Rel.exceptMax l.toNat r.toNat)
+    | _ => none
+  pure (Json.arr #[Json.num (JsonNumber.fromNat 0), Json.num (JsonNumber.fromNat mx)])
+
 def handle (line : String) : Json :=
   match Json.parse line with
   | .error e => Json.mkObj [("model", Json.null), ("error", Json.str s!"parse: {e}")]
@@ -332,6 +355,7 @@ def handle (line : String) : Json :=
       | "ofint" => runOfInt c
       | "filter" => runFilter c
       | "limit" => runLimit c
+      | "sizes" => runSizes c
       | "clip" => runClip c ((j.getObjVal? "aux").toOption.getD Json.null)
       | "dpevent" => runDpEvent c
       | "dpquery" => runDpQuery ((j.getObjVal? "aux").toOption.getD Json.null)
